@@ -163,22 +163,4 @@ theorem body_tbc_eq (e : Emu) (n : Int) : evalBody TermBodies.body_tbc [] [n] e 
 theorem body_hts_eq (e : Emu) : evalBody TermBodies.body_hts [] [] e = .ok (hts e) := by
   simp only [TermBodies.body_hts, TermBodies.stmt_hts, hts]
   body_norm
-/-- resize(): allocation of both screens, margins, saved-cursor clamps, cursor reset and the final
-    choice of the active screen are interpreted statement by statement; the reflow loop nest is the
-    primitive `reflowOld` (source text fixed in the translator, meaning = the model's `reflow`).
-    `make([]cell, w)` is never evaluated when there are no rows, hence the side condition. -/
-theorem body_resize_eq (e : Emu) (w h : Int) (h0 : ¬ (w < 0 ∧ h = 0)) :
-    evalBody TermBodies.body_resize [] [w, h] e = resize Fixes.current e w h := by
-  simp only [TermBodies.body_resize, TermBodies.stmt_resize, resize]
-  body_norm
-  by_cases hh : h < 0
-  · simp [hh]
-  · by_cases hz : h ≤ 0
-    · have h0' : h = 0 := by omega
-      have hw : ¬ w < 0 := fun hw => h0 ⟨hw, h0'⟩
-      subst h0'
-      simp [hw, blankGrid]
-    · by_cases hw : w < 0
-      · simp [hh, hz, hw]
-      · simp [hh, hz, hw, blankGrid]
 end VaxisModel.Lemmas.EmuBody
